@@ -1,13 +1,83 @@
 //! C07: the three threshold functions of `schedule.rs` on a boundary + random set of total weights.
-use rand::Rng;
+use rand::{Rng, SeedableRng};
 use serde_json::json;
-use zksync_consensus_roles::validator::{max_faulty_weight, quorum_threshold, subquorum_threshold};
+use zksync_consensus_roles::validator::{
+    self, max_faulty_weight, quorum_threshold, subquorum_threshold, LeaderSelection, LeaderSelectionMode, Schedule, ValidatorInfo,
+};
 
 use serde_json::Value;
 
 use vharness::{catch, Opts, Out, Prop};
 
-pub struct C07;
+pub struct C07 {
+    keys: Vec<validator::PublicKey>,
+}
+
+const NKEYS: usize = 8;
+
+/// Committees for `Schedule::new`: `[key id, weight, leader]` triples. Families around the 64-bit boundary of the total
+/// weight with every split between leaders and non-leaders, plus zero weights, repeated keys, no leader, empty.
+fn committees(opts: &Opts) -> Vec<Value> {
+    let mut rng = opts.rng();
+    let mut out: Vec<Vec<(u64, u64, bool)>> = vec![];
+    let k = if opts.thorough { opts.n / 20 } else { opts.n / 10 }.max(200);
+    for i in 0..k {
+        let n = rng.gen_range(1..=NKEYS as u64);
+        let mut c: Vec<(u64, u64, bool)> = vec![];
+        let shape = i % 8;
+        // target sum: exactly 2^64-1, 2^64, 2^64+small, 2^63.., or random
+        let target: u128 = match shape {
+            0 => u64::MAX as u128,
+            1 => (u64::MAX as u128) + 1,
+            2 => (u64::MAX as u128) + 1 + rng.gen_range(0..5u128),
+            3 => (u64::MAX as u128) - rng.gen_range(0..5u128),
+            4 => (1u128 << 64) + (1u128 << rng.gen_range(1..64)),
+            5 => 3u128 << 62,
+            _ => 0,
+        };
+        if target > 0 && n >= 2 {
+            // n weights that sum to target (each < 2^64), random split points
+            let mut rest = target;
+            for j in 0..n {
+                let left = (n - j) as u128;
+                let w: u128 = if left == 1 {
+                    rest
+                } else {
+                    let lo = rest.saturating_sub((left - 1) * (u64::MAX as u128)).max(1);
+                    let hi = (rest - (left - 1)).min(u64::MAX as u128);
+                    if rng.gen_bool(0.5) { rng.gen_range(lo..=hi) } else { (rest / left).clamp(lo, hi) }
+                };
+                rest -= w;
+                c.push((j, w.min(u64::MAX as u128) as u64, rng.gen_bool(0.5)));
+            }
+        } else {
+            for j in 0..n {
+                let bits = rng.gen_range(1..=64);
+                c.push((j, (rng.gen::<u64>() >> (64 - bits)).max(1), rng.gen_bool(0.6)));
+            }
+        }
+        // the split that a per-class tally cannot see: each class fits, the whole does not
+        if shape == 5 {
+            for (j, v) in c.iter_mut().enumerate() {
+                v.2 = j % 2 == 0;
+            }
+        }
+        match rng.gen_range(0..20) {
+            0 => c[0].1 = 0,
+            1 if c.len() > 1 => c[1].0 = c[0].0,
+            2 => c.iter_mut().for_each(|v| v.2 = false),
+            3 => c.iter_mut().for_each(|v| v.2 = true),
+            4 => c.clear(),
+            5 => {
+                use rand::seq::SliceRandom;
+                c.shuffle(&mut rng)
+            }
+            _ => {}
+        }
+        out.push(c);
+    }
+    out.into_iter().map(|c| json!({"sched": c.into_iter().map(|(k, w, l)| json!([k, w, l])).collect::<Vec<_>>()})).collect()
+}
 
 fn inputs(opts: &Opts) -> Vec<u64> {
     let mut v: Vec<u64> = (1..=200).collect();
@@ -30,10 +100,15 @@ fn inputs(opts: &Opts) -> Vec<u64> {
 
 impl Prop for C07 {
     fn gen(&mut self, opts: &Opts) -> Vec<Value> {
-        inputs(opts).into_iter().map(|n| json!({"n": n})).collect()
+        let mut v: Vec<Value> = inputs(opts).into_iter().map(|n| json!({"n": n})).collect();
+        v.extend(committees(opts));
+        v
     }
 
     fn exec(&mut self, op: &Value, out: &mut Out) -> Value {
+        if let Some(c) = op.get("sched") {
+            return self.exec_sched(c.as_array().expect("sched"), op, out);
+        }
         let n = op["n"].as_u64().expect("n");
         let r = catch(|| (max_faulty_weight(n), quorum_threshold(n), subquorum_threshold(n)));
         match r {
@@ -62,6 +137,56 @@ impl Prop for C07 {
     }
 }
 
+impl C07 {
+    /// `Schedule::new` on a committee; S: an accepted committee records its true weight, an unrepresentable one is refused.
+    fn exec_sched(&mut self, c: &[Value], op: &Value, out: &mut Out) -> Value {
+        let vs: Vec<(usize, u64, bool)> =
+            c.iter().map(|v| (v[0].as_u64().unwrap() as usize, v[1].as_u64().unwrap(), v[2].as_bool().unwrap())).collect();
+        let infos: Vec<ValidatorInfo> =
+            vs.iter().map(|(k, w, l)| ValidatorInfo { key: self.keys[*k].clone(), weight: *w, leader: *l }).collect();
+        let truth: u128 = vs.iter().map(|v| v.1 as u128).sum();
+        let wellformed = !vs.is_empty()
+            && vs.iter().all(|v| v.1 > 0)
+            && vs.iter().any(|v| v.2)
+            && (0..vs.len()).all(|i| (0..i).all(|j| vs[i].0 != vs[j].0));
+        let r = catch(|| {
+            Schedule::new(infos, LeaderSelection { frequency: 1, mode: LeaderSelectionMode::RoundRobin })
+                .ok()
+                .map(|s| (s.total_weight(), s.max_faulty_weight(), s.quorum_threshold(), s.subquorum_threshold()))
+        });
+        match r {
+            Ok(Some((t, f, q, s))) => {
+                out.count("sched=accepted");
+                let (n_, f_, q_, s_) = (t as u128, f as u128, q as u128, s as u128);
+                if n_ != truth || !wellformed {
+                    out.oracle_fail(
+                        "schedule_new",
+                        "committee accepted although malformed or with a recorded total weight different from the sum of the weights",
+                        json!({"op": op, "true_total": truth.to_string(), "recorded_total": t, "f": f, "q": q, "s": s}),
+                    );
+                } else if !(5 * f_ + 1 <= n_ && q_ + f_ == n_ && s_ + 3 * f_ == n_ && 2 * f_ < s_) {
+                    out.oracle_fail("schedule_new", "thresholds of an accepted committee violate the intersection arithmetic", op.clone());
+                }
+                json!({"ok": true, "total": t, "f": f, "q": q, "s": s})
+            }
+            Ok(None) => {
+                out.count(if truth > u64::MAX as u128 { "sched=rejected_overflow" } else { "sched=rejected_other" });
+                if wellformed && truth <= u64::MAX as u128 {
+                    out.oracle_fail("schedule_new", "well-formed committee with representable weight refused", op.clone());
+                }
+                json!({"ok": false})
+            }
+            Err(site) => {
+                out.oracle_fail(&site, "Schedule::new panicked", op.clone());
+                json!({"panic": site})
+            }
+        }
+    }
+}
+
 fn main() {
-    vharness::main_for(&mut C07);
+    let mut rng = rand::rngs::StdRng::seed_from_u64(7);
+    let mut keys: Vec<validator::PublicKey> = (0..NKEYS).map(|_| rng.gen::<validator::SecretKey>().public()).collect();
+    keys.sort();
+    vharness::main_for(&mut C07 { keys });
 }
